@@ -727,7 +727,7 @@ fn rand_script(r: &mut Rng) -> Value {
             script.push(json!({"k": "var", "label": r.below(2)}));
             nv += 1;
         } else if c < 6 {
-            let k = *r.pick(&["add", "mul", "xor", "sub", "and"]);
+            let k = *r.pick(&["add", "mul", "xor", "sub", "and", "or", "div", "shl", "shr"]);
             script.push(json!({"k": k, "l": r.below(nv), "r": r.below(nv)}));
             nv += 1;
         } else if c < 7 {
@@ -758,7 +758,7 @@ fn rand_eval_script(r: &mut Rng) -> Value {
     for _ in 0..r.range(1, 7) {
         let c = r.below(10);
         if c < 6 {
-            let k = *r.pick(&["add", "mul", "xor", "and"]);
+            let k = *r.pick(&["add", "mul", "xor", "and", "sub", "or", "div", "shl", "shr"]);
             script.push(json!({"k": k, "l": r.below(nv), "r": r.below(nv)}));
             nv += 1;
         } else if c < 8 {
